@@ -49,10 +49,10 @@ func (s *MatchNumerical) Samplef(val float64) {
 		s.values = append(s.values, val)
 	}
 
-	if val < s.min {
+	if s.samples == 1 || val < s.min {
 		s.min = val
 	}
-	if val > s.max {
+	if s.samples == 1 || val > s.max {
 		s.max = val
 	}
 }
